@@ -49,7 +49,13 @@ fn main() {
     match prop {
         "C18" => c18::run(&mut sink, thorough, seed),
         "C01" | "C02" | "C11" => c01::run(&mut sink, prop, thorough, seed),
-        "C14" => { c01::run(&mut sink, prop, thorough, seed); typed::run_tdepth(&mut sink, thorough, seed); streamraw::run_c14(&mut sink, thorough, seed); }
+        "C14" => {
+            // the raw_value configuration of C14 runs the RawValue / UTF-8 clause only (the rest does not depend on the feature)
+            #[cfg(feature = "rv")]
+            c19::run_c14(&mut sink, thorough, seed);
+            #[cfg(not(feature = "rv"))]
+            { c01::run(&mut sink, prop, thorough, seed); typed::run_tdepth(&mut sink, thorough, seed); streamraw::run_c14(&mut sink, thorough, seed); }
+        }
         "C09" => { c01::run(&mut sink, prop, thorough, seed); typed::run_tt3(&mut sink, thorough, seed); streamraw::run_c09(&mut sink, thorough, seed); }
         "C20" => {
             // number-alphabet strings for Number::from_str + accessors, typed targets, whole documents, verbatim text
